@@ -62,6 +62,9 @@ private:
   // destruction
   void* key;
 
+  // The incarnation of the sandbox this callback was registered with
+  size_t sandbox_incarnation;
+
   inline void move_obj(sandbox_callback&& other)
   {
     sandbox = other.sandbox;
@@ -69,6 +72,7 @@ private:
     callback_interceptor = other.callback_interceptor;
     callback_trampoline = other.callback_trampoline;
     key = other.key;
+    sandbox_incarnation = other.sandbox_incarnation;
     other.sandbox = nullptr;
     other.callback = nullptr;
     other.callback_interceptor = nullptr;
@@ -85,7 +89,10 @@ private:
       // 2) if this does happen, the worst that can happen is an invocation of a
       // null function pointer, which causes a crash that cannot be exploited
       // for RCE
-      sandbox->template unregister_callback<T_Ret, T_Args...>(key);
+      // A registration does not survive destroy_sandbox
+      if (sandbox->sandbox_incarnation == sandbox_incarnation) {
+        sandbox->template unregister_callback<T_Ret, T_Args...>(key);
+      }
       sandbox = nullptr;
       callback = nullptr;
       callback_interceptor = nullptr;
@@ -112,9 +119,11 @@ private:
     , callback_interceptor(p_callback_interceptor)
     , callback_trampoline(p_callback_trampoline)
     , key(p_key)
+    , sandbox_incarnation(0)
   {
     detail::dynamic_check(sandbox != nullptr,
                           "Unexpected null sandbox when creating a callback");
+    sandbox_incarnation = sandbox->sandbox_incarnation;
   }
 
 public:
@@ -124,6 +133,7 @@ public:
     , callback_interceptor(nullptr)
     , callback_trampoline(0)
     , key(nullptr)
+    , sandbox_incarnation(0)
   {}
 
   sandbox_callback(sandbox_callback&& other)
